@@ -137,7 +137,42 @@ func tabFields() string {
 	return "Router{" + fieldSet(reflect.TypeOf(icmp_spoofer.Router{})) + "} NewOptions{" + fieldSet(reflect.TypeOf(packet.NewOptions{})) + "}"
 }
 
+// obsLim: the rate limiter is one package-level counter for every Handler6 of the process.  Counter at -1; an RA
+// (lifetime 1800) to handler 1; n RAs to a SECOND handler; an RA (lifetime 600) to handler 1: which lifetime
+// handler 1 has recorded depends on n.  No counter preset between the packets.
+func obsLim(n int) (ret string) {
+	s := session()
+	h1, _ := icmp_spoofer.New6(s)
+	h2, _ := icmp_spoofer.New6(s)
+	rx := newRxBuf()
+	raMu.Lock()
+	defer raMu.Unlock()
+	icmp_spoofer.VerifSetRepeat(-1)
+	push := func(h *icmp_spoofer.Handler6, life uint16) {
+		m := []byte{134, 0, 0, 0, 64, 0, byte(life >> 8), byte(life), 0, 0, 0, 0, 0, 0, 0, 0}
+		if f, err := s.Parse(rx.load(raFrame(lib.RouterMAC, srcLLA, m))); err == nil {
+			h.ProcessPacket(f)
+		}
+		rx.poison()
+	}
+	push(h1, 1800)
+	for i := 0; i < n; i++ {
+		push(h2, 1800)
+	}
+	push(h1, 600)
+	r := h1.FindRouter(srcLLA)
+	if !r.Addr.IP.IsValid() {
+		return "none"
+	}
+	return "life" + secs(r.DefaultLifetime)
+}
+
 func registerTie(r *lib.Run) {
+	r.Register("lim", func(a []string) string {
+		n := 0
+		fmt.Sscan(a[0], &n)
+		return obsLim(n)
+	})
 	r.Register("opts", func(a []string) string { return obsOpts(lib.UnHex(a[0])) })
 	r.Register("tab", func(a []string) string {
 		switch a[0] {
@@ -157,5 +192,8 @@ func registerTie(r *lib.Run) {
 func tieCases(r *lib.Run) {
 	for _, w := range []string{"types", "flags", "offsets", "fields"} {
 		r.Do("tab", w)
+	}
+	for n := 0; n <= 8; n++ {
+		r.Do("lim", fmt.Sprint(n))
 	}
 }
